@@ -56,6 +56,10 @@ def analyze(scen, r, props):
     tokfiles = {}         # tokdir -> set of jobid prefixes
     caps = token_caps(scen)
     capname = {name: (var, cap) for var, (name, cap, kind) in caps.items()}
+    caps_by_name = {}
+    for var, (name, cap, kind) in caps.items():
+        tv, c = caps_by_name.get(name, ([], 0))
+        caps_by_name[name] = (tv + [var], max(c, cap))
     req = {}              # job name -> {tokvar: n}
     for x, j in jobs.items():
         req[f"j{x}"] = {t: n for t, n in j["tok"]}
@@ -94,8 +98,10 @@ def analyze(scen, r, props):
                 if x in pre_done:
                     V("C05", "launched-despite-success-marker", f"{name} has a success marker in the workspace and was launched again")
             # capacity: processes alive under each token
-            for tvar, (tname, cap, kind) in caps.items():
-                held = sum(req.get(n, {}).get(tvar, 0) for n in live.values())
+            # (a token name defined several times - e.g. by two experiments of one process - is ONE token: the holdings under all
+            # its definitions count together, against the largest total ever declared for it)
+            for tname, (tvars, cap) in caps_by_name.items():
+                held = sum(req.get(n, {}).get(tvar, 0) for n in live.values() for tvar in tvars)
                 if held > cap:
                     V("C08", "capacity-exceeded:processes", f"token {tname}: jobs {sorted(live.values())} run together holding {held} > {cap}")
         elif k == "body_start":
@@ -150,9 +156,9 @@ def analyze(scen, r, props):
             elif kind == "unlink":
                 s.discard(fid)
             tname = tokdir.rsplit(".counter", 1)[0]
-            if tname in capname:
-                tvar, cap = capname[tname]
-                held = sum(req.get(id2name.get(f, "?"), {}).get(tvar, 0) for f in s)
+            if tname in caps_by_name:
+                tvars, cap = caps_by_name[tname]
+                held = sum(req.get(id2name.get(f, "?"), {}).get(tvar, 0) for f in s for tvar in tvars)
                 # a token file is written before the launch: map by job identifier recorded by the scripts
                 if held > cap:
                     V("C08", "capacity-exceeded:token-files", f"token {tname}: token files {sorted(s)} together hold {held} > {cap}")
